@@ -706,8 +706,10 @@ impl IndexManager {
             return None;
         }
 
-        let bucket = u8::from_str_radix(&filename[0..2], 16).ok()?;
-        let version = u32::from_str_radix(&filename[2..10], 16).ok()?;
+        // (`get`: a 14-byte name with multi-byte characters has no character
+        // boundary at byte 2 or 10 and is not an index file name)
+        let bucket = u8::from_str_radix(filename.get(0..2)?, 16).ok()?;
+        let version = u32::from_str_radix(filename.get(2..10)?, 16).ok()?;
 
         Some((bucket, version))
     }
